@@ -53,14 +53,18 @@ def s_link(draw, min_slots=2, max_slots=200, kinds=("random", "random", "prbs7",
             "npol": draw(st.sampled_from([1, 2])), "pol": draw(st.sampled_from(["x", "y"])), "both_rows": draw(st.booleans()),
             "r": draw(st.floats(0.1, 1.0)), "R_load": draw(st.floats(10, 1000)), "bw": draw(st.floats(0, 1)), "elem": elem,
             "disp": draw(st.floats(-1, 1)), "L": draw(st.floats(1, 100)), "alpha": draw(st.floats(0, 0.3)),
-            "pdmode": draw(st.sampled_from(["ase-only", "thermal-only"])), "drive_bias_in_dac": draw(st.booleans())}
+            "pdmode": draw(st.sampled_from(["ase-only", "thermal-only"])), "drive_bias_in_dac": draw(st.booleans()),
+            "gvN": draw(st.sampled_from([None, None, "match", "other"]))}      # slot count configured in gv: none / that of the record / another one
 
 
 def run_link(c, slots, carrier=None, pol=None, keep=None):
     """slots: 0/1 array of transmitted slot values; returns the PD output (electrical_signal).
     `carrier`: re-use this CW carrier object (a second transmission from the same laser); `keep`: dict receiving the carrier used."""
     sps, R = c["sps"], c["R"]
-    gv(sps=sps, R=R)
+    if c.get("gvN"):
+        gv(sps=sps, R=R, N=len(slots) if c["gvN"] == "match" else len(slots) // 2 + 3)
+    else:
+        gv(sps=sps, R=R)
     fs = R * sps
     Vpi = c["Vpi"]
     kw = {}
